@@ -265,6 +265,7 @@ func genReconn(r *Rng, prop string) *Scenario {
 			op.Topic = topics[r.IntN(len(topics))]
 			op.Token = fmt.Sprintf("m%d", tok)
 			op.Retain = r.chance(0.2)
+			op.DupIn = r.chance(0.08) // a reused / forwarded message struct
 		case 1:
 			op.Kind = "subscribe"
 			n := 1
@@ -422,13 +423,54 @@ func genReconn(r *Rng, prop string) *Scenario {
 		}
 	}
 
+	// the usual `ctx, cancel := ...; defer cancel()` around Connect: the context
+	// is cancelled some time after Connect returned; the loop must not care
+	if r.chance(0.3) {
+		hasCancel := false
+		for _, op := range sc.Ops {
+			if op.Kind == "cancel" {
+				hasCancel = true
+			}
+		}
+		if !hasCancel && sc.Ops[0].CtxTimeoutUs == 0 {
+			sc.Ops = append(sc.Ops, Op{AtUs: connectAt + 3*(cfg.LatC2BUs+cfg.LatB2CUs+cfg.DialLatUs) + r.between(0, lastOp+maxBackoff), Actor: -1, Kind: "cancel", Target: 0, Token: "late"})
+		}
+	}
+	// Disconnect aimed into the redial of connection 2 (dial parked / CONNECT
+	// unanswered or refused), after connection 1 was lost at a known time
+	if (prop == "C09" || prop == "C11" || prop == "C16") && r.chance(0.15) {
+		cutT := connectAt + 2*(cfg.LatC2BUs+cfg.LatB2CUs+cfg.DialLatUs) + r.between(100, 2000)
+		sc.Faults = []Fault{{Kind: "cutAt", Conn: 1, AtUs: cutT}}
+		switch r.IntN(3) {
+		case 0:
+			sc.Faults = append(sc.Faults, Fault{Kind: "connackRefuse", Conn: 2, Code: byte(r.between(1, 5))})
+		case 1:
+			if cfg.TimeoutUs > 0 {
+				sc.Faults = append(sc.Faults, Fault{Kind: "connackNever", Conn: 2})
+			}
+		}
+		var ops []Op
+		for _, op := range sc.Ops {
+			if op.Kind != "disconnect" && op.Kind != "cancel" && op.Kind != "close" {
+				ops = append(ops, op)
+			}
+		}
+		sc.Ops = ops
+		at := cutT + cfg.ReconnBaseUs + r.between(0, cfg.DialLatUs+cfg.LatC2BUs+cfg.LatB2CUs)
+		dop := Op{AtUs: at, Actor: 3, Kind: "disconnect"}
+		if r.chance(0.3) {
+			dop.CtxTimeoutUs = r.between(100, 5000)
+		}
+		sc.Ops = append(sc.Ops, dop)
+	}
+
 	// buggify: park a random subset of the H2 sites (only where the oracles are
 	// liveness-at-judgement or ordering rules; C11/C13/C18 time their oracles to
 	// the fake instant of a cause and stay yield-free)
 	switch prop {
 	case "C01", "C02", "C03", "C08", "C09", "C12", "C16", "C17":
 		if r.chance(0.25) {
-			sites := []string{"reconn.afterDial", "reconn.afterSetClient", "reconn.afterConnect", "reconn.keepAliveFailed", "reconn.connLost", "reconn.disconnectSeen", "retry.afterTask", "base.afterServe", "base.beforeClosedState", "pub.afterPubRec"}
+			sites := []string{"app.onError", "app.onError", "app.connStateActive", "reconn.afterDial", "reconn.afterSetClient", "reconn.afterConnect", "reconn.keepAliveFailed", "reconn.connLost", "reconn.disconnectSeen", "retry.afterTask", "base.afterServe", "base.beforeClosedState", "pub.afterPubRec"}
 			cfg.Yields = map[string]int64{}
 			for i := 0; i < int(r.between(1, 3)); i++ {
 				cfg.Yields[sites[r.IntN(len(sites))]] = r.pickI(10, 100, 500, 2000)
